@@ -59,6 +59,52 @@ def stage2(ctx, gtirb):
     ctx.count("cases", n)
 
 
+def cxx_tables(ctx, mon, gtirb):
+    """Bytes written by another GTIRB implementation: the AuxData tables of
+    the repository's sample file python/tests/hello.gtirb (produced by the
+    C++ tool chain).  The API must decode them to the value the reference
+    decoder reads, and re-encode that value to bytes the reference decoder
+    reads back to the same value."""
+    import os
+    from .. import build as gbuild, contract
+    path = os.path.join(gbuild.repo_dir(), "python", "tests", "hello.gtirb")
+    if not os.path.exists(path):
+        ctx.note("python/tests/hello.gtirb not present: C++-written tables "
+                 "not checked")
+        return
+    raw = open(path, "rb").read()
+    msg = contract.pb(gtirb, "IR_pb2").IR()
+    msg.ParseFromString(raw[8:])
+    tabs = list(msg.aux_data.items())
+    for m in msg.modules:
+        tabs += list(m.aux_data.items())
+    for key, a in tabs:
+        t = refcodec.parse(a.type_name)
+        if not refcodec.all_known(t):
+            continue
+        data = bytes(a.data)
+        n, pos = refcodec.decode(data, t)
+        want = refcodec.norm(n)
+        ctx.count("cases")
+        ctx.count("cxx_tables_checked")
+        ctx.count("bytes_compared", len(data))
+        ctx.seen("nontrivial", (a.type_name, data))
+        d = mon.pydec(data, a.type_name)
+        if pos != len(data) or mon.decoded_norm(d, t) != want:
+            raise Discrepancy(
+                "C08", "decode-c++-written-table:%s" % t[0],
+                "AuxData table %r (%s) of hello.gtirb, written by the C++ "
+                "implementation, decodes to a different value than the "
+                "documented format gives" % (key, a.type_name), {})
+        back = mon.pyenc(d, a.type_name)
+        n2, pos2 = refcodec.decode(back, t)
+        if pos2 != len(back) or refcodec.norm(n2) != want:
+            raise Discrepancy(
+                "C08", "reencode-c++-written-table:%s" % t[0],
+                "re-encoding table %r (%s) of hello.gtirb does not follow "
+                "the documented format" % (key, a.type_name), {})
+
+
 def run(ctx):
     import gtirb
     if ctx.params.get("java_stage2_file"):
@@ -87,4 +133,6 @@ def run(ctx):
 
     for case in ctx.cases("fmt", ctx.params.get("n_fmt", 400)):
         ctx.run_case(case, one)
+    for case in ctx.cases("cxx", 1):
+        ctx.run_case(case, lambda c: cxx_tables(ctx, mon, gtirb))
     mon.close()
